@@ -128,7 +128,7 @@ def inScope (o : TraceOpts) : Ty → Val → Bool
   | .struct _ fs, .struct vs => inScopeFields o fs vs
   | .map k v, .map es => inScopeEntries o k v es
   | .enum _ vars, .variant i payload =>
-    !(vars.allUnit && o.enumsWithoutDataAsStrings) &&
+    !(vars.withoutData && o.enumsWithoutDataAsStrings) &&
     match vars.get? i with
     | some (_, .newtype t) => inScopeSingle o t payload
     | some (_, .tuple ts) => inScopePos o ts payload
@@ -366,7 +366,7 @@ theorem fragEVariants_get : ∀ (vars : Variants) (i : Nat) (vn : String) (kind 
     exact fragEVariants_get rest i vn kind hf.2 (by simpa [Variants.get?] using h)
 
 theorem enum_union (o : TraceOpts) (n : String) (vars : Variants) (dt : DataType) (nb : Bool) (md : Metadata)
-    (hform : (vars.allUnit && o.enumsWithoutDataAsStrings) = false) (hm : mappingDT o (.enum n vars) = (dt, nb, md)) :
+    (hform : (vars.withoutData && o.enumsWithoutDataAsStrings) = false) (hm : mappingDT o (.enum n vars) = (dt, nb, md)) :
     dt = .union (mappingVariants o 0 vars) .dense ∧ nb = false ∧ md = [] := by
   simp only [mappingDT, hform, Bool.false_eq_true, if_false, Prod.mk.injEq] at hm
   exact ⟨hm.1.symm, hm.2.1.symm, hm.2.2.symm⟩
